@@ -155,6 +155,10 @@ M = [
         table.filter(lambda v, i, md: v.sum() > 0, axis=inv_axis)""",
   """        inv_axis = self._invert_axis(axis)
         table.filter(lambda v, i, md: v.sum() >= 0, axis=inv_axis)""", 'C12'),
+ ('c12_byid_no_shuffle', T, "            rng.shuffle(ids)", "            ids.sort()",
+  'C12'),
+ ('c12_byid_first_always_kept', T, "            rng.shuffle(ids)",
+  "            rng.shuffle(ids[1:])", 'C12'),
  ('c13_pa_negatives', T, "            return np.where(data != 0, 1., 0.)",
   "            return np.where(data > 0, 1., 0.)", 'C13'),
  ('c13_norm_by_len', T, "            return val / float(val.sum())",
